@@ -239,3 +239,294 @@ def dummy_blocks_have_no_target_and_ambiguity_is_refused(setFuel: bool):
     except RuntimeError:
         ok = False
     assert not ok
+
+
+# ----------------------------------------------------------------------------- axial linkage from the real geometry
+HexAssembly = repo("armi.reactor.assemblies:HexAssembly")
+AssemblyAxialLinkage = repo("armi.reactor.converters.axialExpansionChanger.assemblyAxialLinkage:AssemblyAxialLinkage")
+Circle = repo("armi.reactor.components.basicShapes:Circle")
+Hexagon = repo("armi.reactor.components.basicShapes:Hexagon")
+
+
+def circle(name, solid, idm, od, mult, nd=0.01):
+    """a real Circle with cold dimensions id / od / mult (parameter collection viewed as a map)"""
+    p = new(PMap, numberDensities={"U235": nd}, detailedNDens=None, pinNDens=None, volume=1.0, type=name, serialNum=1, od=od, mult=mult, flags=None)
+    p.id = idm
+    return new(Circle, p=p, material=new(Material) if solid else new(Fluid), parent=None, height=0.0, zbottom=0.0, ztop=0.0, name=name, cached={},
+               inputTemperatureInC=20.0)
+
+
+def real_assembly(blocks):
+    a = new(HexAssembly, _children=blocks, p=new(PMap, assemNum=3), name="A", parent=None, spatialGrid=None, spatialLocator=None)
+    for b in blocks:
+        b.parent = a
+        for c in b._children:
+            c.parent = b
+    return a
+
+
+@lemma(gen={"n": (2, 3), "o0": (0.1, 2.0), "o1": (0.1, 2.0), "i0": (0.0, 1.5), "i1": (0.0, 1.5), "m0": [1.0, 169.0], "m1": [1.0, 169.0]})
+def linkage_follows_block_order_and_radial_overlap(n: int, i0: float, o0: float, i1: float, o1: float, m0: float, m1: float):
+    """the REAL AssemblyAxialLinkage of a REAL HexAssembly of n = 2..3 blocks (enumerated); blocks 0 and 1 hold one solid
+    Circle each (any inner / outer diameters and multiplicities) plus a fluid ring, a third block only fluid:
+    block links follow the block order; the two solids are linked to each other exactly when they have the same
+    multiplicity and their cross-sections overlap (larger inner diameter < smaller outer diameter); fluids are never
+    linked; links are mutual (upper of the lower = lower of the upper)."""
+    n = choose(n, 2, 3)
+    assume(0 <= i0 and i0 < o0 and 0 <= i1 and i1 < o1 and m0 >= 1 and m1 >= 1)
+    s0, k0 = circle("fuel", True, i0, o0, m0), circle("coolant", False, o0, o0 + 1.0, m0)
+    s1, k1 = circle("fuel", True, i1, o1, m1), circle("coolant", False, o1, o1 + 1.0, m1)
+    kd = circle("coolant", False, 0.0, 3.0, 1.0)
+    blocks = [block(0.0, 10.0, [s0, k0]), block(10.0, 20.0, [s1, k1])] + ([block(20.0, 30.0, [kd])] if n == 3 else [])
+    a = real_assembly(blocks)
+    lk = AssemblyAxialLinkage(a)
+    assert same(lk.a, a) and len(lk.linkedBlocks) == n
+    for k in range(n):
+        below = blocks[k - 1] if k > 0 else None
+        above = blocks[k + 1] if k + 1 < n else None
+        assert same(lk.linkedBlocks[blocks[k]].lower, below) and same(lk.linkedBlocks[blocks[k]].upper, above), "blocks are linked in assembly order"
+    overlap = max(i0, i1) < min(o0, o1)
+    linked = eq(m0, m1) and overlap
+    assert len(lk.linkedComponents) == 2 and s0 in lk.linkedComponents and s1 in lk.linkedComponents, "only solids take part"
+    assert is_none(lk.linkedComponents[s0].lower) and is_none(lk.linkedComponents[s1].upper)
+    if linked:
+        assert same(lk.linkedComponents[s0].upper, s1) and same(lk.linkedComponents[s1].lower, s0), "overlapping solids are linked, mutually"
+    else:
+        assert is_none(lk.linkedComponents[s0].upper) and is_none(lk.linkedComponents[s1].lower), "no overlap / other multiplicity: not linked"
+
+
+@lemma(gen={"o0": (0.1, 2.0), "o1": (0.1, 2.0), "o2": (0.1, 2.0)})
+def ambiguous_linkage_is_refused(o0: float, o1: float, o2: float):
+    """a solid pin below TWO solid pins of the same multiplicity that both overlap it: the linkage is refused (RuntimeError),
+    it is never resolved silently in favour of one of them"""
+    assume(o0 > 0 and o1 > 0 and o2 > 0)
+    s0 = circle("fuel", True, 0.0, o0, 1.0)
+    s1, s2 = circle("fuel", True, 0.0, o1, 1.0), circle("slug", True, 0.0, o2, 1.0)
+    a = real_assembly([block(0.0, 10.0, [s0]), block(10.0, 20.0, [s1, s2])])
+    try:
+        AssemblyAxialLinkage(a)
+        refused = False
+    except RuntimeError:
+        refused = True
+    assert refused
+
+
+# ----------------------------------------------------------------------------- the whole entry point on a real assembly
+class FBlock(HexBlock):
+    """HexBlock whose type flags are a set of names (armi Flags are bit masks, outside the engine's integer subset);
+    everything else - child queries by flag, iteration, heights - is the real Composite / Block code"""
+
+    def hasFlags(self, typeID, exact=False):
+        return typeID is None or typeID in self.flags
+
+
+class FCircle(Circle):
+    """Circle with the same stand-in for its type flags"""
+
+    def hasFlags(self, typeID, exact=False):
+        return typeID is None or typeID in self.flags
+
+
+def fcircle(name, flags, solid, idm, od, nd, stale=0.0):
+    c = circle(name, solid, idm, od, 1.0, nd)
+    p = c.p
+    return new(FCircle, p=p, material=new(Material) if solid else new(Fluid), parent=None, height=stale, zbottom=stale, ztop=stale, name=name, cached={},
+               inputTemperatureInC=20.0, flags=flags)
+
+
+def fblock(h, flags, comps):
+    return new(FBlock, p=new(PMap, zbottom=None, ztop=None, height=h, z=None, flags=None, type="fuel", serialNum=2, axialExpTargetComponent=None),
+               _children=comps, name="b", parent=None, spatialLocator=None, flags=flags)
+
+
+CH_OVERRIDE = {"armi.reactor.converters.axialExpansionChanger.expansionData:Flags": "FlagNames",
+               "armi.reactor.converters.axialExpansionChanger.expansionData:TARGET_FLAGS_IN_PREFERRED_ORDER": "TARGETS",
+               "armi.reactor.converters.axialExpansionChanger.axialExpansionChanger:Flags": "FlagNames"}
+
+WGEN = {"nb": (1, 3), "h0": (3.0, 40.0), "h1": (3.0, 40.0), "h2": (3.0, 40.0), "hd": (30.0, 60.0), "gf0": (0.9, 1.1), "gc0": (0.9, 1.1), "gf1": (0.9, 1.1),
+        "gc1": (0.9, 1.1), "gf2": (0.9, 1.1), "gc2": (0.9, 1.1), "n": (0.001, 0.05)}
+
+
+@lemma(gen=WGEN, overrides=CH_OVERRIDE, timeout=120)
+def prescribed_expansion_of_a_whole_assembly(nb: int, setFuel: bool, h0: float, h1: float, h2: float, hd: float, gf0: float, gc0: float, gf1: float, gc1: float,
+                                             gf2: float, gc2: float, n: float, stale: float):
+    """AxialExpansionChanger.performPrescribedAxialExpansion - setAssembly (REAL AssemblyAxialLinkage from the pin geometry,
+    REAL ExpansionData with its target selection, dummy-block check), setExpansionFactors, axiallyExpandAssembly - on a REAL
+    HexAssembly with a REAL AxialGrid, z-coordinates established by reestablishBlockOrder / calculateZCoords:
+    nb = 1..3 pin blocks (enumerated; fuel pin + clad ring + coolant each) under a coolant-only dummy block, ANY positive
+    heights, growth fractions and densities, and ANY previous component elevations (`stale`): the post-state is again a
+    contiguous stack from 0 under the same total height, i.e. the statement is the step for any history of changes.  Stand-ins: type flags as name sets (FBlock / FCircle / FlagNames), parameter
+    collections as maps (PMap)."""
+    nb = choose(nb, 1, 3)
+    hs, gf, gc = [h0, h1, h2], [gf0, gf1, gf2], [gc0, gc1, gc2]
+    assume(h0 > 0 and h1 > 0 and h2 > 0 and hd > 0 and n > 0)
+    assume(gf0 > 0 and gc0 > 0 and gf1 > 0 and gc1 > 0 and gf2 > 0 and gc2 > 0)
+    fuel, clad, cool, blocks = [], [], [], []
+    for k in range(nb):
+        fuel.append(fcircle("fuel", {"FUEL"}, True, 0.0, 0.8, n, stale))
+        clad.append(fcircle("clad", {"CLAD"}, True, 0.9, 1.0, 2 * n, stale))
+        cool.append(fcircle("coolant", {"COOLANT"}, False, 1.0, 1.5, 3 * n))
+        blocks.append(fblock(hs[k], {"FUEL"}, [fuel[k], clad[k], cool[k]]))
+    kd = fcircle("coolant", {"COOLANT"}, False, 0.0, 1.5, 3 * n)
+    bd = fblock(hd, {"DUMMY"}, [kd])
+    blocks.append(bd)
+    a = real_assembly(blocks)
+    a.reestablishBlockOrder()
+    a.calculateZCoords()
+    total = bd.p.ztop
+    comps, percents = [], []
+    for k in range(nb):
+        comps = comps + [fuel[k], clad[k]]
+        percents = percents + [gf[k], gc[k]]
+    ch = AxialExpansionChanger()
+    try:
+        ch.performPrescribedAxialExpansion(a, comps, percents, setFuel)
+    except ArithmeticError:
+        cover("refused")
+        return  # the dummy block cannot absorb the growth: refused loudly
+    cover("expanded")
+    # total height unchanged
+    assert eq(bd.p.ztop, total) and eq(a.getTotalHeight(), total), "total assembly height unchanged"
+    bounds = a.spatialGrid._bounds[2]
+    assert len(bounds) == nb + 2 and eq(bounds[0], 0.0)
+    assert eq(blocks[0].p.zbottom, 0.0)
+    for k in range(nb + 1):
+        b = blocks[k]
+        if k > 0:
+            assert eq(b.p.zbottom, blocks[k - 1].p.ztop), "each block's bottom is the top of the one below"
+        assert eq(b.p.height, b.p.ztop - b.p.zbottom) and eq(b.p.z, (b.p.zbottom + b.p.ztop) / 2.0)
+        assert b.p.height >= 0
+        assert eq(bounds[k + 1], b.p.ztop), "the axial grid bounds equal the block elevations"
+        assert b.spatialLocator.getCompleteIndices() == (0, 0, k) and same(b.spatialLocator.grid, a.spatialGrid)
+    for k in range(nb):
+        b = blocks[k]
+        assert b.p.height > 0, "pin blocks keep a positive height"
+        assert b.p.axialExpTargetComponent == "fuel" and ch.expansionData.isTargetComponent(fuel[k]) and not ch.expansionData.isTargetComponent(clad[k])
+        assert eq(b.p.ztop, fuel[k].ztop), "a block boundary moves with its target component"
+        assert eq(fuel[k].height, gf[k] * hs[k]) and eq(clad[k].height, gc[k] * hs[k]), "each solid grows by its fraction of the old block height"
+        below_f = fuel[k - 1].ztop if k > 0 else 0.0
+        below_c = clad[k - 1].ztop if k > 0 else 0.0
+        assert eq(fuel[k].zbottom, below_f) and eq(clad[k].zbottom, below_c), "components linked axially stay stacked bottom-on-top"
+        assert eq(fuel[k].ztop, fuel[k].zbottom + fuel[k].height) and eq(clad[k].ztop, clad[k].zbottom + clad[k].height)
+        assert eq(fuel[k].p.numberDensities["U235"] * gf[k], n) and eq(clad[k].p.numberDensities["U235"] * gc[k], 2 * n), "density divided by the growth fraction"
+        assert eq(cool[k].p.numberDensities["U235"], 3 * n), "fluids are not touched"
+        assert eq(fuel[k].p.numberDensities["U235"] * b.p.height, n * hs[k]), "the mass of the block's target component is conserved"
+        common_base = True if k == 0 else eq(clad[k].zbottom, b.p.zbottom)
+        assert implies(eq(gf[k], gc[k]) and common_base, eq(clad[k].p.numberDensities["U235"] * b.p.height, 2 * n * hs[k])), \
+            "uniform growth (on a common base): every solid's mass conserved"
+    assert eq(kd.p.numberDensities["U235"], 3 * n)
+
+
+@lemma(gen={"g0": (-0.5, 1.5), "g1": (-0.5, 1.5), "extra": (0, 1)})
+def unphysical_growth_fractions_are_refused(g0: float, g1: float, extra: int):
+    """ExpansionData.setExpansionFactors: a growth fraction <= 0 or a list of the wrong length is refused (RuntimeError)
+    and NO factor of the call is stored; otherwise exactly the given factors are stored, and getExpansionFactor returns
+    them (1.0 for a component never mentioned)."""
+    extra = choose(extra, 0, 1)
+    c0, c1, c2 = comp(True, 0.01, None), comp(True, 0.01, None), comp(True, 0.01, None)
+    ed = new(ExpansionData, _expansionFactors={}, _componentDeterminesBlockHeight={})
+    try:
+        ed.setExpansionFactors([c0, c1], [g0, g1] + ([1.0] if extra == 1 else []))
+        ok = True
+    except RuntimeError:
+        ok = False
+    if g0 > 0 and g1 > 0 and extra == 0:
+        assert ok and eq(ed.getExpansionFactor(c0), g0) and eq(ed.getExpansionFactor(c1), g1) and len(ed._expansionFactors) == 2
+    else:
+        assert not ok, "unphysical input is refused"
+        assert len(ed._expansionFactors) == 0, "and leaves no partial state behind"
+    assert eq(ed.getExpansionFactor(c2), 1.0)
+
+
+# ----------------------------------------------------------------------------- expansion by a temperature field
+class AbstractSolid(Material):
+    """a solid material with an ARBITRARY expansion correlation P(T) (percent), as in C03_expansion.py"""
+
+    def linearExpansionPercent(self, Tk=None, Tc=None):
+        return uf("P", Tc)
+
+
+class AbstractFluid(Fluid):
+    """a fluid with an arbitrary density law rho(T)"""
+
+    def pseudoDensity(self, Tk=None, Tc=None):
+        return uf("rho", Tc)
+
+
+def percent(c, T):
+    return c.material.linearExpansionPercent(Tc=T) if NATIVE else uf("P", T)
+
+
+def tcircle(name, flags, solid, idm, od, T, nd):
+    """FCircle at temperature T (input temperature 20 C)"""
+    if NATIVE:
+        c = FCircle(name, "HT9" if solid else "Sodium", 20.0, T, od=od, mult=1.0)
+        c.setDimension("id", idm, cold=True)
+        c.p.numberDensities = {"U235": nd}
+        c.height, c.zbottom, c.ztop, c.flags = 0.0, 0.0, 0.0, flags
+        return c
+    p = new(PMap, numberDensities={"U235": nd}, detailedNDens=None, pinNDens=None, volume=None, modArea=None, type=name, serialNum=1, od=od, mult=1.0,
+            temperatureInC=T, flags=None)
+    p.id = idm
+    return new(FCircle, p=p, material=new(AbstractSolid) if solid else new(AbstractFluid), parent=None, height=0.0, zbottom=0.0, ztop=0.0, name=name, cached={},
+               inputTemperatureInC=20.0, flags=flags)
+
+
+@lemma(gen={"nb": (1, 2), "h0": (3.0, 40.0), "h1": (3.0, 40.0), "hd": (30.0, 60.0), "T0": (300.0, 500.0), "T1": (300.0, 500.0), "U0": (250.0, 700.0),
+            "U1": (250.0, 700.0), "Ud": (250.0, 700.0), "n": (0.001, 0.05)}, overrides=CH_OVERRIDE, timeout=120)
+def thermal_expansion_of_a_whole_assembly(nb: int, h0: float, h1: float, hd: float, T0: float, T1: float, U0: float, U1: float, Ud: float, n: float):
+    """AxialExpansionChanger.performThermalAxialExpansion (setAssembly, updateComponentTempsBy1DTempField,
+    computeThermalExpansionFactors, axiallyExpandAssembly) with one temperature point at the centre of every block:
+    nb = 1..2 pin blocks (enumerated) + dummy on a real HexAssembly / AxialGrid / AssemblyAxialLinkage, solids of an
+    ABSTRACT material (arbitrary expansion law P(T) > -100 percent; natively HT9), block k going from temperature
+    T_k to U_k.  Each solid grows axially by (100 + P(U)) / (100 + P(T)) of the block height; total height, contiguity
+    and grid bounds as for the prescribed case; number density x growth^3 is conserved (2-D thermal + axial change)."""
+    nb = choose(nb, 1, 2)
+    hs, Ts, Us = [h0, h1], [T0, T1], [U0, U1]
+    assume(h0 > 0 and h1 > 0 and hd > 0 and n > 0)
+    fuel, clad, blocks = [], [], []
+    for k in range(nb):
+        fuel.append(tcircle("fuel", {"FUEL"}, True, 0.0, 0.8, Ts[k], n))
+        clad.append(tcircle("clad", {"CLAD"}, True, 0.9, 1.0, Ts[k], 2 * n))
+        cool = tcircle("coolant", {"COOLANT"}, False, 1.0, 1.5, Ts[k], 3 * n)
+        blocks.append(fblock(hs[k], {"FUEL"}, [fuel[k], clad[k], cool]))
+        assume(percent(fuel[k], Ts[k]) > -100.0 and percent(fuel[k], Us[k]) > -100.0)
+    kd = tcircle("coolant", {"COOLANT"}, False, 0.0, 1.5, T0, 3 * n)
+    bd = fblock(hd, {"DUMMY"}, [kd])
+    blocks.append(bd)
+    a = real_assembly(blocks)
+    a.reestablishBlockOrder()
+    a.calculateZCoords()
+    total = bd.p.ztop
+    grid = [b.p.z for b in blocks]
+    field = [Us[k] for k in range(nb)] + [Ud]
+    ch = AxialExpansionChanger()
+    try:
+        ch.performThermalAxialExpansion(a, grid, field)
+    except ArithmeticError:
+        cover("refused")
+        return
+    except RuntimeError:
+        # Component.getThermalExpansionFactor refuses a material whose expansion law gives NO change between two different
+        # temperatures ("may not be implemented"): the only other refusal, and only for that reason
+        flat0 = eq(percent(fuel[0], U0), percent(fuel[0], T0)) and U0 != T0
+        flat1 = nb == 2 and eq(percent(fuel[nb - 1], U1), percent(fuel[nb - 1], T1)) and U1 != T1
+        assert flat0 or flat1
+        return
+    cover("expanded")
+    assert eq(bd.p.ztop, total) and eq(a.getTotalHeight(), total), "total assembly height unchanged"
+    bounds = a.spatialGrid._bounds[2]
+    assert len(bounds) == nb + 2 and eq(bounds[0], 0.0) and eq(blocks[0].p.zbottom, 0.0)
+    for k in range(nb + 1):
+        b = blocks[k]
+        if k > 0:
+            assert eq(b.p.zbottom, blocks[k - 1].p.ztop), "each block's bottom is the top of the one below"
+        assert eq(b.p.height, b.p.ztop - b.p.zbottom) and b.p.height >= 0
+        assert eq(bounds[k + 1], b.p.ztop), "the axial grid bounds equal the block elevations"
+    for k in range(nb):
+        g = (100.0 + percent(fuel[k], Us[k])) / (100.0 + percent(fuel[k], Ts[k]))
+        assert eq(fuel[k].temperatureInC, Us[k]) and eq(clad[k].temperatureInC, Us[k]), "components take the block's temperature"
+        assert eq(fuel[k].height, g * hs[k]) and eq(clad[k].height, g * hs[k]), "axial growth = ratio of the linear expansion factors"
+        assert eq(blocks[k].p.ztop, fuel[k].ztop) and blocks[k].p.height > 0
+        assert eq(fuel[k].p.numberDensities["U235"] * g * g * g, n, 1e-7), "atoms conserved: density x growth^3"
+        assert eq(fuel[k].p.numberDensities["U235"] * blocks[k].p.height * g * g, n * hs[k], 1e-7), "target component: density x height x area conserved"
